@@ -35,9 +35,9 @@ def wrap_cc(a):
 
 
 def approx_pmap(net):
-    """coordinates the linearisation starts from: the given approximate values; a later
-    <coordinates> cluster redefines them by its observed values (the parser stores them as
-    the point's coordinates)"""
+    """coordinates the linearisation starts from: the given approximate values; a <coordinates>
+    cluster defines them by its observed values only for points without given coordinates
+    (before the fix 901010d in /repo the observed values replaced the given ones)"""
     P = {}
     for p in net["points"]:
         q = dict(p)
@@ -53,10 +53,12 @@ def approx_pmap(net):
             q = P[ob["id"]]
             i = 0
             if "xy" in ob["dims"]:
-                q["E"], q["N"] = nm.from_input(net, v[0], v[1])
+                if not q.get("give_xy", True):
+                    q["E"], q["N"] = nm.from_input(net, v[0], v[1])
                 i = 2
             if "z" in ob["dims"]:
-                q["H"] = v[i]
+                if not q.get("give_z", True):
+                    q["H"] = v[i]
     return P
 
 
